@@ -110,14 +110,16 @@ def main(argv=None):
         del argv[i:i + 2]
     if tier not in ('quick', 'thorough'):
         tier = 'quick'
+    # SA_NOWRITE=1: experiment on a scratch tree (ONSAGER_REPO=...) without touching the committed evidence
+    write = os.environ.get('SA_NOWRITE') != '1'
     if cmd == 'check':
-        code, _ = run_property(argv[0], tier)
+        code, _ = run_property(argv[0], tier, write=write)
         return code
     if cmd == 'all':
         worst = 0
         model = Model()
         for p in (argv or CLAIMED):
-            code, _ = run_property(p, tier, model=model)
+            code, _ = run_property(p, tier, model=model, write=write)
             worst = max(worst, code)
         return worst
     if cmd == 'replay':
